@@ -235,6 +235,39 @@ func TestC09(t *testing.T) {
 					}
 				}
 			}
+			// step ids are scoped to their job: make ids of different jobs coincide up to letter case
+			if rapid.IntRange(0, 2).Draw(rt, "sharedstepids") == 0 {
+				var idNodes [][]*ye.Node // per job
+				for _, id := range w.RegularJobs {
+					var ns []*ye.Node
+					if j := w.Root.Get("jobs").Get(id); j != nil && j.Get("steps") != nil {
+						for _, st := range j.Get("steps").Vals {
+							if st.Kind == ye.Map && st.Get("id") != nil && st.Get("id").Kind == ye.Scalar && !strings.Contains(st.Get("id").Val, "${{") {
+								ns = append(ns, st.Get("id"))
+							}
+						}
+					}
+					if len(ns) > 0 {
+						idNodes = append(idNodes, ns)
+					}
+				}
+				if len(idNodes) >= 2 {
+					r.Class("step-ids-shared-between-jobs")
+					base := "Shared" + rapid.SampledFrom([]string{"Build", "test", "X"}).Draw(rt, "sharedname")
+					for ji, ns := range idNodes {
+						n := ns[rapid.IntRange(0, len(ns)-1).Draw(rt, "sharedat")]
+						switch (ji + rapid.IntRange(0, 2).Draw(rt, "sharedcase")) % 3 {
+						case 0:
+							n.Val = base
+						case 1:
+							n.Val = strings.ToLower(base)
+						default:
+							n.Val = strings.ToUpper(base)
+						}
+						n.Raw = ""
+					}
+				}
+			}
 			ne := rapid.IntRange(2, 8).Draw(rt, "nexpr")
 			for i := 0; i < ne && len(cand) > 0; i++ {
 				lf := cand[rapid.IntRange(0, len(cand)-1).Draw(rt, "leaf")]
